@@ -30,6 +30,13 @@ func VerifHookTaskRole(name string, trigger string, critical bool, t *task.Task)
 	return r
 }
 
+// VerifSetTimeout sets the timeout trait of a task role.
+func VerifSetTimeout(r Role, timeout string) {
+	if tr, ok := r.(*taskRole); ok {
+		tr.Traits.Timeout = timeout
+	}
+}
+
 // VerifSetStatus sets the cached status of a task role (e.g. INACTIVE for a hook that already died).
 func VerifSetStatus(r Role, s task.Status) {
 	if tr, ok := r.(*taskRole); ok {
